@@ -23,6 +23,10 @@ def main():
         if r.returncode != 0:
             rows.append((mid, 'patch does not apply', '')); continue
         det = {}
+        saved = {}
+        for p in props:      # the evidence files must keep describing the unchanged tree
+            ep = os.path.join(ROOT, 'evidence', p + '.json')
+            saved[ep] = open(ep).read() if os.path.exists(ep) else None
         try:
             for p in props:
                 t0 = time.time()
@@ -39,6 +43,9 @@ def main():
                           'replay_kind': (replay or {}).get('kind'), 'replay_case': (replay or {}).get('explain') or ((replay or {}).get('no_longer_checks') or [None])[0]}
         finally:
             sh(f'git -C {REPO} checkout -- .')
+            for ep, txt in saved.items():
+                if txt is not None:
+                    open(ep, 'w').write(txt)
         json.dump(det, open(os.path.join(d, 'detection.json'), 'w'), indent=1)
         for p, v in det.items():
             rows.append((mid, p, 'DETECTED' if v['exit'] == 1 and v['violation_line'] else f'missed (exit {v["exit"]})', v['replay_kind'], v['wall_s']))
